@@ -43,6 +43,11 @@ Skeletons2 == {
   << "?N" >>, << "?N", "?b", "b" >>, << "a", "?b", "?N" >>, << "?U", "?N" >>,
   << "?N", "(", "a", ")" >>, << "f", "(", "?N", ",", "k1", "=", "?N", ")" >>, << "o", ".", "?N" >>,
   << "a", "if", "?N", "else", "?N" >>, << "t", "[", "?N", "]" >>,
+  \* subscripts by the empty tuple, of a subscript, of a call, of a tuple display
+  << "t", "[", "(", ")", "]" >>, << "t", "[", "0", "]", "[", "(", ")", "]" >>,
+  << "f", "(", "a", ")", "[", "(", ")", "]" >>, << "(", "a", ",", "b", ")", "[", "c", "]" >>,
+  << "(", "a", ",", "b", ",", "2", ")", "[", "1", "]" >>, << "t", "[", "(", ")", ",", "0", "]" >>,
+  << "m", "[", "(", "1", ",", ")", "]" >>, << "m", "[", "t", "[", "(", ")", "]", "]" >>,
   \* postfix forms against prefix / infix operators
   << "?U", "f", "(", "a", ")" >>, << "?U", "t", "[", "1", "]" >>, << "?U", "o", ".", "p" >>,
   << "a", "?B", "f", "(", "b", ")" >>, << "f", "(", "a", ")", "?B", "b" >>,
